@@ -185,11 +185,14 @@ class Theory(object):
         aux = []
         for t_single in t:
             pt.t = t_single
-            if hasattr(pt, 'process') and pt.process == 'gammastarp2rho0p':
-                res = self._XGAMMA_rho0_t(pt)
-            else:
-                res = self._XGAMMA_DVCS_t(pt)
-            del pt.t
+            try:
+                if hasattr(pt, 'process') and pt.process == 'gammastarp2rho0p':
+                    res = self._XGAMMA_rho0_t(pt)
+                else:
+                    res = self._XGAMMA_DVCS_t(pt)
+            finally:
+                # remove the temporary attribute also if the evaluation fails
+                del pt.t
             aux.append(res)
         return array(aux)
 
